@@ -622,6 +622,14 @@ fn encode_args(
             LowerArg::DiffSwitch { .. } => panic!("should be handled earlier"),
             _ => 0,
         };
+        let is_reg = matches!(&arg.value, LowerArg::Raw(SimpleArg { is_reg: true, .. }) | LowerArg::Local { .. });
+        if is_reg && current_param_mask_bit == 0 && enc.contributes_to_param_mask() && !enc.is_always_immediate() {
+            // all bits of the mask have been used up by earlier parameters
+            return Err(emitter.emit(error!(
+                message("too many arguments in instruction!"),
+                primary(arg, "a register this late in the argument list cannot be recorded in the parameter mask"),
+            )));
+        }
         // Verify this arg even applies to the param mask...
         if enc.contributes_to_param_mask() {
             if enc.is_always_immediate() && arg_bit != 0 {
@@ -734,13 +742,6 @@ fn encode_args(
                 args_blob.write_all(&encoded.0).expect("Cursor<Vec> failed?!");
             },
         }
-    }
-
-    if current_param_mask_bit.trailing_zeros() > raw::ParamMask::BITS as _ {
-        return Err(emitter.emit(error!(
-            message("too many arguments in instruction!"),
-            primary(args[raw::ParamMask::BITS as usize], "too many arguments"),
-        )));
     }
 
     Ok(RawInstr {
